@@ -32,9 +32,15 @@ def run(chk):
                     order = {'pburg': p['order'], 'pyule': p['order'], 'pcovar': p['order'], 'pmodcovar': p['order'], 'pminvar': p['order'],
                              'parma': p['P'], 'pma': p['maQ'], 'pmusic': p['IP'], 'pev': p['IP']}.get(name, 0)
                     ev = {'ev': 'grid', 'cls': name, 'dt': dt, 'N': N, 'nfft': nfft, 'c': c, 'lag': p['corrlag'], 'order': order}
-                    ok1, o1 = call_guard(lambda: zoo.outputs(name, zoo.build(name, x.copy(), nfft, 1.0, False, **over)))
-                    ok2, o2 = call_guard(lambda: zoo.outputs(name, zoo.build(name, x.copy(), c * nfft, 1.0, False, **over)))
+                    def both(n_):
+                        ob = zoo.build(name, x.copy(), n_, 1.0, False, **over)
+                        out = zoo.outputs(name, ob)
+                        out['_readback'] = zoo.readback_dev(ob, n_, 1.0)
+                        return out
+                    ok1, o1 = call_guard(both, nfft)
+                    ok2, o2 = call_guard(both, c * nfft)
                     ev['raised'] = not (ok1 and ok2)
+                    ev['grid_dev'] = obs.q(max(o1['_readback'], o2['_readback'])) if ok1 and ok2 else 0
                     if ok1 and ok2:
                         a, b = o1['psd'], o2['psd']
                         sc = max(float(np.max(np.abs(a))), 1e-300)
